@@ -56,7 +56,7 @@ def eq(x, k):
     return ("atom", v(x), "==", c(k))
 
 
-def shapes():
+def shapes(quick=True):
     """hand-written shapes named by the property: guards over one/two finite variables, guard
     combined with a first-level if (collapse), a.s. termination and termination with
     probability < 1, exit expectations that are finite, constant, or divergent.
@@ -93,7 +93,12 @@ def shapes():
                  "body": [asg("y", ("add", v("y"), v("s"))),
                           ("if", [(eq("s", 0), [choice("s", [(F(1, 2), c(1)), (F(1, 2), c(0))])])],
                            [choice("s", [(F(1, 2), c(2)), (F(1, 2), c(1))])])]},
-                [("E", {"y": 1}), ("E", {"s": 1}), ("E", {"y": 2})], "inequality-guard+two-stage"))
+                [("E", {"s": 1})] if quick else [("E", {"y": 1}), ("E", {"s": 1}), ("E", {"y": 2})], "inequality-guard+two-stage"))
+    # the same two-stage chain with two flags (n*r^n terms, two-valued types only)
+    out.append(({"types": [], "init": [asg("a", c(0)), asg("b", c(0)), asg("y", c(0))], "guard": eq("b", 0),
+                 "body": [asg("y", ("add", v("y"), c(1))),
+                          ("if", [(eq("a", 0), [bern("a", F(1, 2))])], [bern("b", F(1, 2))])]},
+                [("E", {"y": 1}), ("c", 2, {"y": 1}), ("E", {"a": 1, "y": 1})], "two-stage-flags"))
     # already stopped at the start with probability 1/2
     out.append(({"types": [], "init": [bern("x", F(1, 2)), asg("y", c(0))], "guard": eq("x", 0),
                  "body": [bern("x", F(1, 3)), asg("y", ("add", v("y"), c(2)))]},
@@ -412,10 +417,107 @@ def eval_expr_ast(e, st):
     raise ValueError(e)
 
 
+# ---- generator of guarded loops that do terminate with positive probability ---------------------
+LPROBS = [Fraction(1, 2), Fraction(1, 3), Fraction(1, 4), Fraction(2, 3), Fraction(3, 4), Fraction(1, 5)]
+
+
+def loop_program(rng):
+    """one stop flag g (guard g == 0 or a two-variable guard with a context flag h), the flag is
+    redrawn in the body (possibly only when h == 1), accumulators get linear updates; options:
+    already stopped at the start, h fixed at the start (termination with probability < 1) or
+    redrawn in every iteration, whole body wrapped into a one-branch if (collapse), if/else body."""
+    pr = lambda: rng.choice(LPROBS)
+    feats = set()
+    init = []
+    start = rng.random()
+    if start < 0.25:
+        init.append(bern("g", pr()))
+        feats.add("stopped-at-0")
+    else:
+        init.append(asg("g", c(0)))
+    use_h = rng.random() < 0.6
+    h_fixed = rng.random() < 0.5
+    if use_h:
+        init.append(bern("h", pr()))
+    accs = ["y"] + (["z"] if rng.random() < 0.4 else [])
+    for a in accs:
+        init.append(asg(a, c(rng.choice([0, 1]))))
+    # guard
+    gk = rng.random()
+    if use_h and gk < 0.3:
+        guard = ("and", eq("g", 0), eq("h", 1))
+        feats.add("guard-and")
+    elif use_h and gk < 0.45:
+        guard = ("not", ("and", eq("g", 1), eq("h", 1)))
+        feats.add("guard-not-and")
+    elif gk < 0.6:
+        guard = ("atom", v("g"), "<", c(1))
+        feats.add("guard-inequality")
+    else:
+        guard = eq("g", 0)
+    # flag update
+    if rng.random() < 0.5:
+        upd = bern("g", pr())
+    else:
+        q = pr()
+        upd = choice("g", [(q, c(1)), (1 - q, c(0))])
+    stmts = []
+    if use_h and not h_fixed:
+        stmts.append(bern("h", pr()))
+        feats.add("context-redrawn")
+    elif use_h:
+        feats.add("context-fixed")
+    cond_upd = use_h and rng.random() < 0.6 and "guard-not-and" not in feats
+    for a in accs:
+        r = rng.random()
+        if r < 0.4:
+            e = ("add", v(a), c(rng.choice([1, 2, Fraction(1, 2)])))
+        elif r < 0.6:
+            e = ("add", v(a), v("g"))
+        elif r < 0.75 and use_h:
+            e = ("add", v(a), v("h"))
+        elif r < 0.9:
+            e = ("add", ("mul", c(rng.choice([Fraction(1, 2), Fraction(1, 3), -1])), v(a)), c(1))
+        else:
+            e = ("add", v(a), ("mul", c(2), v("g")))
+        stmts.append(asg(a, e))
+    if cond_upd:
+        if rng.random() < 0.5:
+            flag_stmt = ("if", [(eq("h", 1), [upd])], None)
+            feats.add("conditional-stop")
+        else:
+            flag_stmt = ("if", [(eq("h", 1), [upd])], [bern("g", pr())])
+            feats.add("if-else-stop")
+    else:
+        flag_stmt = upd
+    stmts.insert(rng.randint(0, len(stmts)), flag_stmt)
+    body = stmts
+    if use_h and rng.random() < 0.12:
+        body = [("if", [(eq("h", 1), stmts)], None)]
+        feats.add("collapse")
+    p = {"types": [], "init": init, "guard": guard, "body": body}
+    goals = []
+    a = rng.choice(accs)
+    goals.append(("E", {a: 1}))
+    r = rng.random()
+    if r < 0.35:
+        goals.append(("E", {a: 2}))
+    elif r < 0.6:
+        goals.append((rng.choice(["c", "k"]), 2, {a: 1}))
+    elif r < 0.8:
+        goals.append(("E", {a: 1, "g": 1}))
+    if use_h and rng.random() < 0.5:
+        goals.append(("E", {"h": 1}))
+    return p, goals, "loop:" + "+".join(sorted(feats) or ["plain"])
+
+
 # ---- the check -------------------------------------------------------------------------------
 def gen_programs(ctx, n):
     out = []
     tries = 0
+    n_loop = n - n // 5
+    while len(out) < n_loop:
+        out.append(loop_program(ctx.rng))
     while len(out) < n and tries < 20 * n + 20:
         tries += 1
         g = gen.G(ctx.rng, guard=True, max_depth=1, allow_simult=ctx.rng.random() < 0.3,
@@ -491,16 +593,20 @@ def run(ctx):
     N = ctx.pick(8, 10)         # exact comparison of the conditional sequence: Polar at n = 1..N+1
     NF = ctx.pick(24, 40)       # far horizon for the limit (validation)
     n_prog = ctx.pick(20, 150)
-    progs = shapes()
+    progs = shapes(ctx.quick)
     n_shapes = len(progs)
     progs += gen_programs(ctx, max(0, n_prog - len(progs)))
     tasks = [{"kind": "afterloop", "text": P.prog_text(p), "goals": [goal_text(g) for g in goals], "nvals": N + 2,
               "timeout": 150} for p, goals, _ in progs]
+    import time as _time
+    phases = {"props_s": round(ctx.elapsed(), 1)}
+    _t = _time.time()
     results = lib.run_tasks(tasks, timeout=150)
+    phases["polar_s"] = round(_time.time() - _t, 1)
     errs, feats = {}, {}
     live = []
     for i, ((p, goals, tag), r) in enumerate(zip(progs, results)):
-        for f in tag.replace("gen:", "").split("+"):
+        for f in tag.replace("gen:", "").replace("loop:", "").split("+"):
             if f:
                 feats[f] = feats.get(f, 0) + 1
         if "error" in r or "exception" in r:
@@ -527,7 +633,9 @@ def run(ctx):
                 envs = typed_envs(r, [Gs, r["source_guard"]])
         ometa[i] = {"ms": ms, "Gs": Gs_ast, "envs": envs is not None}
         ofiles.append((f"exit_{i}", oracle_case_file(p, ms, NF, N, Gs_ast, envs)))
+    _t = _time.time()
     oouts = lib.coq_run_many(ctx, ofiles, timeout=400)
+    phases["oracle_s"] = round(_time.time() - _t, 1)
     exact = {}
     for i in live:
         okc, o = oouts[f"exit_{i}"]
@@ -555,7 +663,7 @@ def run(ctx):
             vmeta[i] = {"unsupported": str(e), "items": []}
             continue
         body = EXIT_HEADER + "From Polar Require Import AfterLoopLimit.\n" + defs
-        body += "Eval vm_compute in [check_types fp0 T0].\n"
+        body += "Eval vm_compute in [check_types fp0 T0; check_base cm0 fp0 T0 Ss0].\n"
         items = []
         for gi, (g, gr) in enumerate(zip(goals, r["goals"])):
             for k, part in sorted(gr.get("parts", {}).items()):
@@ -564,12 +672,14 @@ def run(ctx):
                 except (core.NotModelled, ValueError, KeyError) as e:
                     items.append((gi, int(k), None, str(e)))
                     continue
-                body += f"Eval vm_compute in (check_exit cm0 fp0 T0 G0 {a['M']} Ss0 {a['N']} {a['D']}).\n"
+                body += f"Eval vm_compute in (check_part T0 G0 {a['M']} Ss0 {a['N']} {a['D']}).\n"
                 body += f"Eval vm_compute in (option_map qpair (limit_value {a['fN']} {a['fD']})).\n"
                 items.append((gi, int(k), a, None))
         vmeta[i] = {"items": items}
         vfiles.append((f"vx_{i}", body))
+    _t = _time.time()
     vouts = lib.coq_run_many(ctx, vfiles, timeout=400)
+    phases["validators_s"] = round(_time.time() - _t, 1)
     valid = {}      # (i, gi, k) -> {"accepted": bool|None, "limit": Fraction|None, "why": str}
     for i in live:
         vm = vmeta[i]
@@ -580,16 +690,17 @@ def run(ctx):
             continue
         okc, o = vouts[f"vx_{i}"]
         ev = parse_evals(o) if okc else []
-        types_ok = bool(ev) and "true" in ev[0][0]
+        b0 = [x.strip() == "true" for x in ev[0][0].strip("[] \n").split(";")] if ev else [False, False]
+        types_ok, base_ok = b0[0], b0[-1]
         pos = 1
         for gi, k, a, why in vm["items"]:
             if a is None:
                 valid[(i, gi, k)] = {"accepted": None, "limit": None, "why": why}
                 continue
-            if not okc or pos + 1 >= len(ev) + 0 and pos + 1 > len(ev) - 0:
+            if not okc or pos + 1 >= len(ev):
                 valid[(i, gi, k)] = {"accepted": None, "limit": None, "why": "coq-error: " + o[-400:]}
                 continue
-            acc = ev[pos][0] == "true"
+            acc = base_ok and ev[pos][0] == "true"
             lim = parse_opt_q(ev[pos + 1][0]) if pos + 1 < len(ev) else None
             pos += 2
             valid[(i, gi, k)] = {"accepted": acc, "limit": lim, "why": None if acc else ("types-rejected" if not types_ok else "rejected"),
@@ -724,7 +835,10 @@ def run(ctx):
             if pv.startswith("?"):
                 limit_tasks.append({"kind": "limit", "expr": gr["after_loop"], "timeout": 60})
                 limit_meta.append(len(pending_b) - 1)
+    _t = _time.time()
     lres = lib.run_tasks(limit_tasks, timeout=60) if limit_tasks else []
+    phases["limit_tasks_s"] = round(_time.time() - _t, 1)
+    ctx.coverage["phase_seconds"] = phases
     repaired = {}
     for idx, lr in zip(limit_meta, lres):
         repaired[idx] = lr
@@ -736,8 +850,21 @@ def run(ctx):
             stat["limit_not_taken"] += 1
             ctx.violation(KNOWN_NO_LIMIT, {"program_text": text, "goal": gname, "printed": shown},
                           f"--after_loop prints a formula in n instead of the limit: {shown}\n{text}")
+            # the printed formula must at least be the general branch of the conditional sequence
+            alv = gr.get("after_loop_values") or []
+            for n in (N, N + 1):
+                if n < len(alv) and n < len(gr.get("cond_values", [])) and parse_val(gr["cond_values"][n]) is not None \
+                        and parse_val(alv[n]) != parse_val(gr["cond_values"][n]):
+                    ctx.violation(f"after-loop-formula:{text}:{gname}", {"program_text": text, "goal": gname, "printed": shown, "n": n,
+                                                                          "printed_at_n": alv[n], "sequence_at_n": gr["cond_values"][n]},
+                                  f"{gname} after the loop: the printed formula {shown} is not the general term of the moment-given-"
+                                  f"termination sequence (at n={n}: {alv[n]} vs {gr['cond_values'][n]})\n{text}")
+                    break
             lr = repaired.get(idx, {})
-            pv = lr.get("limit") or "!unknown"
+            if not lr.get("limit") or lr["limit"].startswith("?"):
+                stat["repaired_limit_unavailable"] = stat.get("repaired_limit_unavailable", 0) + 1
+                continue   # sympy finds no limit within the time budget: nothing of Polar's left to compare
+            pv = lr["limit"]
             how = f"limit of the printed formula {gr.get('after_loop')} (taken with one integer symbol n)"
         else:
             how = f"printed value {shown}"
